@@ -161,6 +161,13 @@ pub fn range_honest(
             ctx.violation("challenge derived from the finished range constraint differs from the builder's", json!({"class": "challenge-mismatch", "kind": "range-constraint"}));
         }
     }
+    // completeness on the real object, before any model comparison
+    if !constraint.verify_range_constraint(rp, chal(&c), c * Scalar::from(value as u64) + cs) {
+        ctx.violation(
+            &format!("honest range constraint for {} does not verify against the linked response scalar c*v + commitment_scalar", value),
+            json!({"class": "honest-range-rejected", "value": value}),
+        );
+    }
     let pb = wire::ser(&constraint);
     if pb.len() != 9 * 360 {
         ctx.broken("range constraint is not 9 x 360 bytes");
